@@ -170,11 +170,11 @@ func stageRef(c stage.Cfg) ref {
 	return r
 }
 
-// foldAff is the left fold of the affine maps x -> (i+1)x+i for i = 1..k starting from the identity.
+// foldAff is the left fold of the affine maps x -> (i+1)x+1 for i = 1..k (pairwise non-commuting) starting from the identity.
 func foldAff(k int) stage.Aff {
 	a, b := 1, 0
 	for x := 1; x <= k; x++ {
-		ga, gb := x+1, x
+		ga, gb := x+1, 1
 		a, b = a*ga, ga*b+gb
 	}
 	return stage.Aff{A: a, B: b}
